@@ -24,7 +24,7 @@ def obligations(tier):
     # injector: S1 (mess) -> S2 (mess+intd) -> S3 (mess+intd+todo), name = inode, crash/failed runs leave only S1/S2 leftovers
     obls += _borrow("C01", ["queue_order", "queue_content"], tier)
     # daemon: preprocessing order (S3 -> S4/S5), end of life (S5 -> removal order), restart, garbage collection after 36 h
-    obls += _borrow("C03", ["todo_do", "messdone", "job_close", "pqadd", "cleanup_do"], tier)
+    obls += _borrow("C03", ["todo_do", "messdone", "job_close", "pqadd", "cleanup_do", "readsubdir_scan", "pqstart_all"], tier)
     # cleaner: removes intd then mess / intd then todo, of the requested number only
     obls += _borrow("C18", ["clean_requests"], tier)
     # second daemon instance refuses to touch the queue
